@@ -195,6 +195,7 @@ var propImports = map[string][]imp{
 		{"C11.9/ownership", "C17", "concurrent users of one socket never end up holding the same message or buffer", []string{"C17.1/E5", "C17.5/send-contract", "C17.7/fresh-backing-per-message"}},
 	},
 	"C12": {
+		{"C12.20/accept-loop", "C16", "silent connections never stop a listener from accepting: the accept goroutine waits for nothing but Accept — no handshake step, channel, WaitGroup or condition variable directly or below the calls it makes", []string{"C16.8/accept-loop"}},
 		{"C12.19/attach", "C13", "a connection lost while it is being attached is detached again: the attach and the record that it happened are one critical section with Close, so the protocol is told of the loss and admits the next peer", []string{"C13.1/addPipe"}},
 		{"C12.15/fail-no-peers", "C18", "losing the last peer fails the blocked senders once and leaves the socket usable for the next peer", []string{"C18.4/fail-no-peers"}},
 		{"C12.13/refused-device", "C19", "a Device call that is refused has started nothing", []string{"C19.7/refused-device-has-no-effect"}},
